@@ -195,7 +195,8 @@ func (b *BFS) Explore(r *Run) int {
 	w := b.Scn.Build(KindDB)
 	root := &Node{Dump: w.Dump()}
 	if b.Init != nil {
-		b.Init(r, w, root)
+		b.Init(r, w, root) // may run a preamble of real transactions (recorded in root.Path)
+		root.Dump = w.Dump()
 	}
 	seen := map[string]struct{}{root.Key(): {}}
 	frontier := []*Node{root}
